@@ -57,6 +57,12 @@ HARNESSES = [
     ('k_text_2', 'messages/parsers.rs', ['C13', 'C01'], 'bounded', 'parse_6bit_ascii: 2 characters, every bit offset, all contents', 'quick', 900),
     ('k_text_3', 'messages/parsers.rs', ['C13', 'C01'], 'bounded', 'parse_6bit_ascii: 3 characters, every bit offset, all contents', 'thorough', 3000),
 ]
+# byte-level scanners validated in the alloc configuration (under std nom's memchr reaches inline assembly)
+ALLOC_SHIM = [
+    ('k_nom_take_until', 'lib.rs', ['SHIM'], 'shimval', 'bytes::complete::take_until(",") on 0..=4 bytes, all contents (alloc configuration)', 'quick', 900),
+    ('k_nom_digit1', 'lib.rs', ['SHIM'], 'shimval', 'character::complete::digit1 on 0..=4 bytes, all contents (alloc configuration)', 'quick', 600),
+]
+
 NOALLOC = [
     ('k_na_unarmor_0', 'messages/mod.rs', ['C18'], 'bounded', 'no-allocator unarmor, 0 characters', 'quick', 600),
     ('k_na_unarmor_3', 'messages/mod.rs', ['C18'], 'bounded', 'no-allocator unarmor, 3 characters, all contents and fill counts, vs the same reference as the std build', 'quick', 600),
@@ -117,8 +123,9 @@ def prepare_crate(work, variant='std'):
     os.makedirs(os.path.join(kc, '.cargo'))
     open(os.path.join(kc, '.cargo', 'config.toml'), 'w').write('[net]\noffline = true\n')
     frs = _fragments(variant)
-    import klayout
-    frs['layout.rs'] = klayout.generate(variant)
+    if variant != 'alloc':
+        import klayout
+        frs['layout.rs'] = klayout.generate(variant)
     for frag, text in frs.items():
         tgt = FRAG_TARGET.get(frag)
         if not tgt:
@@ -140,7 +147,9 @@ def tree_hash(kc):
 
 def run_harnesses(names, work, log, extra_args=(), timeout=1200, jobs=8, target='--lib'):
     """one cargo-kani invocation for several harnesses; returns {name: dict(status, time_s, output)}"""
-    variant = 'noalloc' if '--no-default-features' in extra_args else 'std'
+    variant = 'std'
+    if '--no-default-features' in extra_args:
+        variant = 'alloc' if 'alloc' in extra_args else 'noalloc'
     kc = prepare_crate(work, variant)
     key = hashlib.sha256((tree_hash(kc) + ' '.join(sorted(names)) + ' '.join(extra_args) + target).encode()).hexdigest()
     cp = os.path.join(CACHE, 'kani-' + key + '.json')
@@ -240,7 +249,12 @@ def run_for_property(prop, tier, work, log):
         import klayout
         for (name, rel, domain) in klayout.harness_table():
             sel.append((name, 'lib.rs', [prop], 'bounded', domain, 'thorough', 2400))
-    return _run_sel(sel, work, log)
+    out = _run_sel(sel, work, log)
+    if prop in ('C08', 'C01'):
+        o2 = _run_sel(list(ALLOC_SHIM), work, log, extra_args=['--no-default-features', '--features', 'alloc'])
+        out['shimval'] += o2['shimval']
+        out['undecided'] += o2['undecided']
+    return out
 
 
 def _run_sel(sel, work, log, extra_args=()):
